@@ -6,6 +6,7 @@ import Req.Client.RetryDyn
 import Req.Client.Exchange
 import Req.Client.Backoff64
 import Req.Client.RetryKinds
+import Req.Client.RetryObs
 /-!
 Driver lanes of C10.
 
@@ -324,20 +325,24 @@ def encObs (o : Obs) : String :=
   toString o.attempt ++ "/" ++ encView o.resp ++ "/" ++ (match o.err with | some k => encErrKind k | none => "-")
 
 /-- Duration the stub interval function `id` answers for `attempt`; the stubs numbered 100 and
-up are "Retry-After style": they read the status of the response they are handed. -/
-def stubInterval (id attempt : Nat) (v : RespView) : Nat :=
+up are "Retry-After style": they read the status of the response they are handed; those numbered
+200 and up have STATE — a schedule consumed one step per call: the answer depends on `k`, the
+number of interval calls made before this one (round 6: an extra call by an observer shifts every
+later answer). -/
+def stubInterval (id attempt : Nat) (v : RespView) (k : Nat) : Nat :=
   id * 1000 + attempt +
-    (if id ≥ 100 then (match v with | .status c => 7 * c | _ => 0) else 0)
+    (if id ≥ 200 then 13 * k
+     else if id ≥ 100 then (match v with | .status c => 7 * c | _ => 0) else 0)
 
 /-- Events → tokens; `obs` is the list of observed durations of the backoff calls, consumed in
 order; `pass` counts the loop passes begun so far over all sends (= the script position of the
 pass in progress), `sets` is what each script position's response stores in the cookie jar. -/
-def encEvents (showWire : Bool) (sets : List (List (Bytes × Bytes))) :
+def encEvents (showWire : Bool) (sets : List (List (Bytes × Bytes))) (tot : Nat) :
     List (Event Wire) → List Int → Nat → List String × Nat
   | [], _, pass => ([], pass)
   | e :: t, obs, pass =>
     let cont (tok : String) (obs : List Int) (pass : Nat) : List String × Nat :=
-      let r := encEvents showWire sets t obs pass
+      let r := encEvents showWire sets tot t obs pass
       (tok :: r.1, r.2)
     match e with
     | .before ra => cont ("B" ++ toString ra) obs (pass + 1)
@@ -357,7 +362,7 @@ def encEvents (showWire : Bool) (sets : List (List (Bytes × Bytes))) :
       | d :: obs' =>
         let tok := match src with
           | .dflt => toString (100000000 : Nat)
-          | .fn id => toString (stubInterval id a v)
+          | .fn id => toString (stubInterval id a v (tot - obs.length))
           | .fixed n => toString n
           | .backoff mn mx =>
             let h := Req.Backoff.half mn mx a
@@ -478,22 +483,28 @@ def encKept (script : List Outcome) (pass : Nat) (fin : Final) (held : Bool) (du
     "K" ++ bit (hasBody && bodyObs == "1") ++ bit hasResult ++ bit (dumpObs == "1") ++ bit (traceObs == "1")
   | _ => "K-"
 
-def encSends (showWire : Bool) (sets : List (List (Bytes × Bytes))) (script : List Outcome) (dumpObs traceObs bodyObs : String) :
+def encSends (showWire : Bool) (sets : List (List (Bytes × Bytes))) (tot : Nat) (script : List Outcome) (dumpObs traceObs bodyObs : String) :
     List (List (Event Wire) × Final × Bool) → List Int → Nat → List String
   | [], _, _ => []
   | (ev, fin, held) :: more, obs, pass =>
-    let r := encEvents showWire sets ev obs pass
+    let r := encEvents showWire sets tot ev obs pass
     r.1 ++ [encFinal fin, encKept script r.2 fin held dumpObs traceObs bodyObs] ++
-      encSends showWire sets script dumpObs traceObs bodyObs more (obs.drop (countIntervals ev)) r.2
+      encSends showWire sets tot script dumpObs traceObs bodyObs more (obs.drop (countIntervals ev)) r.2
 
 def decSets (s : String) : Option (List (List (Bytes × Bytes))) :=
   (splitList "," s).mapM fun t => if t == "-" then some [] else (t.splitOn "+").mapM decPair
+
+/-- `<debugLog><devMode><trace><dump>`, each 0 / 1. -/
+def decObservers (s : String) : Option Req.RetryObs.Observers :=
+  match s.toList.map (fun c => decBool (String.singleton c)) with
+  | [some a, some b, some c, some d] => some ⟨a, b, c, d⟩
+  | _ => none
 
 def laneRun (showWire : Bool) : List String → String
   | v :: cops :: rops :: conds :: hooks :: after :: script :: bobs ::
      [cck, chd, cfm, cq, cag,
      method, url, ck, hd, fm, ord, q, mp, files, body, resend, ivx,
-     rawq, pp, cpp, cbase, cscheme, sets, dumpObs, traceObs, bodyObs, pre] =>
+     rawq, pp, cpp, cbase, cscheme, sets, dumpObs, traceObs, bodyObs, pre, osw] =>
     let r : Option String := do
       let v ← decVariant v
       let ro := effective (← decSetters cops) (← decSetters rops)
@@ -515,8 +526,12 @@ def laneRun (showWire : Bool) : List String → String
       let sets ← decSets sets
       let pre ← decPre pre
       -- the caller's middleware first, then the built-in chain
-      let sends := dsends v p ed (fun ra s => mw v cfg ra (pre ra s)) (unreplayable v) resend script 0 st (dynOf p)
-      pure (" ".intercalate (encSends showWire sets script dumpObs traceObs bodyObs sends bobs 0))
+      -- the client's observation switches: the loop as the client with these switches runs it
+      -- (`Req.Props.C10Obs.observers_do_not_call_policy`: the same calls whatever they are)
+      let osw ← decObservers osw
+      let sends := Req.RetryObs.odsends osw .code v p ed (fun ra s => mw v cfg ra (pre ra s)) (unreplayable v)
+        resend script 0 st (dynOf p)
+      pure (" ".intercalate (encSends showWire sets bobs.length script dumpObs traceObs bodyObs sends bobs 0))
     r.getD "bad-op"
   | _ => "bad-op"
 
